@@ -52,6 +52,9 @@ def build(g):
   elif c in ("Add", "Subtract", "Multiply", "Maximum", "Average"):
     lay = getattr(L, c)()
     a = QActivation(QB)(i)
+    if g.get("bc"):      # a broadcast operand (squeeze-and-excite style gate of shape 1x1xC), first or second
+      b = QActivation("quantized_bits(6,1,1)")(L.Lambda(lambda t: t[:, :1, :1, :])(i))
+      return tf.keras.Model(i, lay([b, a] if g["bc"] == 2 else [a, b])), lay
     b = QActivation("quantized_bits(6,1,1)")(i)
     return tf.keras.Model(i, lay([a, b])), lay
   else:
@@ -101,6 +104,10 @@ def count_geometries(rnd, tier):
   for cls in ("Add", "Subtract", "Multiply", "Maximum"):
     for h in sizes:
       gs.append(geom(cls, h=h, w=rnd.choice(sizes), cin=rnd.choice([1, 3])))
+  for cls in ("Add", "Multiply"):
+    for h in sizes:
+      for bc in (1, 2):
+        gs.append(dict(geom(cls, h=max(h, 2), w=rnd.choice(sizes), cin=rnd.choice([2, 3])), bc=bc))
   return gs
 
 
@@ -245,7 +252,9 @@ def main():
   # energy reports
   combos = list(itertools.product(("dram", "sram", "fixed"), ("dram", "sram"), (0, 4096), (True, False)))
   sels = [dict(cfg.include_energy), {"default": ["inputs", "outputs", "parameters", "op_cost"]},
-          {"default": ["op_cost"], "QDense": ["parameters", "inputs"], "QActivation": []}]
+          {"default": ["op_cost"], "QDense": ["parameters", "inputs"], "QActivation": []},
+          # an explicitly empty selection for a class is a selection, not a missing key
+          {"default": ["inputs", "outputs", "parameters", "op_cost"], "QConv2D": [], "QDense": [], "QActivation": []}]
   for mi, model in enumerate(energy_models(rnd)):
     if mi % nshards != shard % 3 or shard >= 3 * (nshards // 3):
       continue
